@@ -2,6 +2,7 @@
 //! products (C07).  A case is `{suite, cid, ty: "rat"|"f64", prop: "C06"|"C07", steps: [...]}`; steps:
 //!   {"op":"from_triplets","arg":{"rows","cols","ts":[[i,j,v],..]}}   {"op":"from_vecs","arg":{"rows","cols","val","ri","cs"}}
 //!   {"op":"insert","i","j","v"}   {"op":"scale","a"}   {"op":"transpose"}   {"op":"products","x","y","a"}
+//!   {"op":"refuse","what":insert|get|multiply|transpose_multiply|from_triplets|from_vecs_bad, ...}  a call that must be refused
 //!   {"op":"gap","x":<operation>,"n"}  n unlogged calls of the operation on small instances (workspace wrap-around)
 //! After every construction / modification step the six public fields are projected (`f`); in C06 cases
 //! also the four views: get on every position (`gp` present flags, `gv` values), to_triplets (`trip`),
@@ -202,6 +203,33 @@ pub fn run<T: Elem>(case: &Value, out: &mut Out) {
                     "scale" => { let a = T::from_ri(geti(st, "a"), 0); if guarded(|| sp.scale(&a)).is_err() { panicked = true; } }
                     _ => { match guarded(|| sp.transpose()) { Ok(t) => s = Some(t), Err(_) => panicked = true } }
                 }
+            }
+            // a call that must be refused (arguments outside the accepted range), run under guarded(); the object
+            // `s` is the same afterwards and is projected / viewed like after any other step
+            "refuse" => {
+                let sp = match s.as_mut() { Some(sp) => sp, None => break };
+                let returned = match gets(st, "what") {
+                    "insert" => { let (i, j, v) = (getu(st, "i"), getu(st, "j"), T::from_ri(geti(st, "v"), 0)); guarded(|| sp.insert(i, j, v)).is_ok() }
+                    "get" => { let (i, j) = (getu(st, "i"), getu(st, "j")); guarded(|| { std::hint::black_box(sp.get(i, j)); }).is_ok() }
+                    "multiply" => { let x = Vector::create(tvec::<T>(&st["x"])); guarded(|| { std::hint::black_box(sp.multiply(&x)); }).is_ok() }
+                    "transpose_multiply" => { let x = Vector::create(tvec::<T>(&st["x"])); guarded(|| { std::hint::black_box(sp.transpose_multiply(&x)); }).is_ok() }
+                    "from_triplets" => { let a = &st["arg"]; let (r, c) = (getu(a, "rows"), getu(a, "cols")); let mut ts = triplets_from::<T>(&a["ts"]);
+                        guarded(|| { std::hint::black_box(Sparse::from_triplets(r, c, &mut ts).nonzero); }).is_ok() }
+                    "from_vecs_bad" => { let a = &st["arg"]; let (r, c) = (getu(a, "rows"), getu(a, "cols"));
+                        let (val, ri, cs) = (tvec::<T>(&a["val"]), usvec(&a["ri"]), usvec(&a["cs"]));
+                        // inconsistent raw arrays: nothing is documented; the malformed temporary is exercised and dropped
+                        let m = guarded(|| Sparse::from_vecs(r, c, val, ri, cs));
+                        if let Ok(m) = &m {
+                            let x = Vector::create(vec![T::from_ri(1, 0); c]);
+                            let _ = guarded(|| { std::hint::black_box(m.transpose().nonzero); });
+                            let _ = guarded(|| { std::hint::black_box(m.multiply(&x)); });
+                            let _ = guarded(|| { std::hint::black_box(m.to_dense()); });
+                            let _ = guarded(|| { std::hint::black_box(m.to_triplets()); });
+                        }
+                        m.is_ok() }
+                    other => { eprintln!("TOOL-ERROR unknown refusal {}", other); std::process::exit(2) }
+                };
+                e["returned"] = json!(returned);
             }
             other => { eprintln!("TOOL-ERROR unknown sparse op {}", other); std::process::exit(2) }
         }
@@ -446,6 +474,74 @@ fn gap_case(rng: &mut StdRng, c07: bool, variant: usize, g: u64, maxd: usize) ->
     steps
 }
 
+/// number of kinds of refused calls produced by `refuse_step`
+const REFUSALS: usize = 19;
+/// a call that must be refused on an object of the tracked shape: 0-2 insert out of range (row / col / both),
+/// 3-11 from_triplets with one bad triplet (row / col / both out of range) at the first / middle / last list
+/// position after 0, 1 or many valid ones, 12-13 get out of range, 14-17 multiply / transpose_multiply with a
+/// vector one too long / one too short, 18 from_vecs with inconsistent arrays
+fn refuse_step(rng: &mut StdRng, t: &Track, kind: usize) -> Value {
+    let (r, c) = (t.rows, t.cols);
+    let inr = |rng: &mut StdRng, n: usize| if n == 0 { 0 } else { rng.gen_range(0..n) };
+    match kind {
+        0 => json!({"op": "refuse", "what": "insert", "i": r, "j": inr(rng, c), "v": nzval(rng)}),
+        1 => json!({"op": "refuse", "what": "insert", "i": inr(rng, r), "j": c, "v": nzval(rng)}),
+        2 => json!({"op": "refuse", "what": "insert", "i": r + rng.gen_range(0..2usize), "j": c + rng.gen_range(0..2usize), "v": nzval(rng)}),
+        3..=11 => {
+            let (bad, pos) = ((kind - 3) % 3, (kind - 3) / 3);
+            let (fr, fc) = if rng.gen_bool(0.5) { (r, c) } else { (rng.gen_range(1..=8usize), rng.gen_range(1..=8usize)) };
+            let cap = fr * fc;
+            let nvalid = match rng.gen_range(0..3) { 0 => 0, 1 => 1.min(cap), _ => if cap == 0 { 0 } else { rng.gen_range(1..=cap) } };
+            let mut ts = pattern(rng, fr, fc, nvalid); ts.shuffle(rng);
+            let b = match bad { 0 => (fr, inr(rng, fc), nzval(rng)), 1 => (inr(rng, fr), fc, nzval(rng)), _ => (fr, fc, nzval(rng)) };
+            let at = match pos { 0 => 0, 1 => ts.len() / 2, _ => ts.len() };
+            ts.insert(at, b);
+            json!({"op": "refuse", "what": "from_triplets", "arg": {"rows": fr, "cols": fc, "ts": jts(&ts)}})
+        }
+        12 => json!({"op": "refuse", "what": "get", "i": r, "j": inr(rng, c)}),
+        13 => json!({"op": "refuse", "what": "get", "i": inr(rng, r), "j": c}),
+        14 => json!({"op": "refuse", "what": "multiply", "x": distinct_vec(rng, c + 1)}),
+        15 => json!({"op": "refuse", "what": "multiply", "x": distinct_vec(rng, if c > 0 { c - 1 } else { 2 })}),
+        16 => json!({"op": "refuse", "what": "transpose_multiply", "x": distinct_vec(rng, r + 1)}),
+        17 => json!({"op": "refuse", "what": "transpose_multiply", "x": distinct_vec(rng, if r > 0 { r - 1 } else { 2 })}),
+        _ => {
+            let (fr, fc) = (rng.gen_range(1..=6usize), rng.gen_range(1..=6usize));
+            let nn = rng.gen_range(1..=fr * fc); let mut ts = pattern(rng, fr, fc, nn); ts.shuffle(rng);
+            let mut st = ctor_vecs(fr, fc, &ts);
+            let a = st["arg"].as_object_mut().unwrap();
+            let mut val = ivec(&a["val"]); let mut ri = ivec(&a["ri"]); let mut cs = ivec(&a["cs"]);
+            match rng.gen_range(0..4) { 0 => { val.pop(); } 1 => { ri[0] = fr as i64 + 1; } 2 => { cs[fc] += 2; } _ => { cs.swap(0, fc); } }
+            json!({"op": "refuse", "what": "from_vecs_bad", "arg": {"rows": fr, "cols": fc, "val": val, "ri": ri, "cs": cs}})
+        }
+    }
+}
+/// "poison" history: after every refused call (run under guarded, same thread) the SAME object is observed
+/// (views / products: it must still be the unchanged matrix), then a fresh assembly of the same shape, one of a
+/// different shape and an insert sequence follow -- each judged as usual (a fault may heal after one call).
+fn poison_case(rng: &mut StdRng, c07: bool, maxd: usize, first_kind: usize, nkinds: usize) -> Vec<Value> {
+    let (r, c) = (rng.gen_range(1..=maxd), rng.gen_range(1..=maxd));
+    let (st, mut t) = rand_ctor(rng, r, c);
+    let mut steps = vec![st];
+    let pr = |rng: &mut StdRng, t: &Track, steps: &mut Vec<Value>| { if c07 { steps.push(products_step(rng, t)); } };
+    pr(rng, &t, &mut steps);
+    for q in 0..nkinds {
+        steps.push(refuse_step(rng, &t, (first_kind + q) % REFUSALS));
+        pr(rng, &t, &mut steps);                                                   // (a) the same object
+        if rng.gen_bool(0.4) { steps.push(rand_mod(rng, &mut t)); pr(rng, &t, &mut steps); }   //     ... and it still works
+        // (b) fresh assembly of the same shape, (c) of another shape, then an insert sequence
+        let (sr, sc) = (t.rows, t.cols);
+        for (ar, ac) in [(sr, sc), (rng.gen_range(1..=maxd), rng.gen_range(1..=maxd))] {
+            let n = rng.gen_range(1..=(ar * ac).min(ar + ac + 3));
+            let mut ts: Vec<(usize, usize, i64)> = pattern(rng, ar, ac, n); ts.shuffle(rng);
+            steps.push(if rng.gen_bool(0.75) { ctor_triplets(ar, ac, &ts) } else { ctor_vecs(ar, ac, &ts) });
+            t = track_of(ar, ac, &ts);
+            pr(rng, &t, &mut steps);
+        }
+        for _ in 0..2 { if let Some(m) = mod_kind(rng, &mut t, 0) { steps.push(m); pr(rng, &t, &mut steps); } }
+    }
+    steps
+}
+
 fn permutations(n: usize) -> Vec<Vec<usize>> {
     fn go(cur: &mut Vec<usize>, used: &mut Vec<bool>, out: &mut Vec<Vec<usize>>) {
         if cur.len() == used.len() { out.push(cur.clone()); return; }
@@ -541,6 +637,11 @@ fn gen_c06(quick: bool, seed: u64, out: &mut Out) {
         let steps = gap_case(&mut rng, false, variant, *g, 8);
         push(out, if *g > 1000 { "f64" } else { TYS[(variant + gi) % 2] }, steps);
     } }
+    // (i) poison sequences: refused calls (every kind) followed by observation of the same object and fresh assemblies
+    for h in 0..(if quick { 57 } else { 570 }) {
+        let steps = poison_case(&mut rng, false, 8, (h * 3) % REFUSALS, 3);
+        push(out, TYS[h % 2], steps);
+    }
 }
 
 fn gen_c07(quick: bool, seed: u64, out: &mut Out) {
@@ -606,6 +707,11 @@ fn gen_c07(quick: bool, seed: u64, out: &mut Out) {
         let steps = gap_case(&mut rng, true, variant, *g, 10);
         push(out, if *g > 1000 { "f64" } else { TYS[(variant + gi) % 2] }, steps);
     } }
+    // (g) poison sequences: refused calls followed by products on the same object and on fresh assemblies
+    for h in 0..(if quick { 57 } else { 570 }) {
+        let steps = poison_case(&mut rng, true, 10, (h * 3) % REFUSALS, 3);
+        push(out, TYS[h % 2], steps);
+    }
 }
 
 pub fn gen(tier: &str, seed: u64, out: &mut Out) {
